@@ -7,17 +7,21 @@
    types and any print options, text length = returned length, the checker
    accepts with the count the scanner writes, the scanner consumes the whole
    text, and the values come back (ranges by expansion).
-   Proved part: [good_val] - int32, int64, chars, true/false/nil/inf, strings
-   and quoted symbols with every escape and every string line break; every
-   line length, precision, column.  The model covers range conversion, arrays
-   and messages (Pretty/PrintModel.v, ScanModel.v); the round trip of whole
-   lists is proved with compression off (C10_roundtrip_partial,
-   C10_message_partial), the range conversion itself and the reading of
-   repetitions separately (C10_range_expand, C10_repetition_reads_partial);
-   see notes/C10.md for what is still open. *)
+   Proved (see the comment at each theorem and notes/C10.md): the round trip
+   for EVERY option record - compression on or off - and unbounded lists of
+   int32, int64, chars, true/false/nil/inf, strings, symbols (quoted or bare),
+   colours, MIDI, blobs and, with the lossless option, every finite float and
+   double (C10_roundtrip_any_partial, C10_message_any_partial), for arrays
+   (C10_array_roundtrip_partial) and for the text forms of lists that mix arrays
+   with other values (C10_mixed_reads_partial).  The first theorems
+   (C10_roundtrip_partial, C10_message_partial, C10_print_total) are the
+   compression-off fragment over [good_val] of the first stage; the range
+   conversion itself and the reading of repetitions are stated separately
+   (C10_range_expand, C10_repetition_reads_partial).  Side conditions are
+   named at the theorems; time tags: C10_timetag_... (model, calendar, fraction). *)
 From Coq Require Import List ZArith.
 From RtoscV Require Import Pretty.Tok Pretty.FloatFmt Pretty.PrintModel Pretty.ScanModel
-  Pretty.PrettyProofs Pretty.FloatProofs Pretty.SymBlobProofs Pretty.RangeProofs Pretty.RunProofs Pretty.ListProofs Pretty.ArrayProofs Pretty.MixedProofs Pretty.PrettyRegress.
+  Pretty.PrettyProofs Pretty.FloatProofs Pretty.SymBlobProofs Pretty.RangeProofs Pretty.RunProofs Pretty.ListProofs Pretty.ArrayProofs Pretty.MixedProofs Pretty.MixedPrint Pretty.TotalProofs Pretty.TimeFmt Pretty.TimeProofs Pretty.PrettyRegress.
 Import ListNotations.
 Local Open Scope Z_scope.
 
@@ -45,6 +49,11 @@ Theorem C10_linebreak_transparent : forall (dec2f dec2d : list Z -> Z) vs T,
   count_printed_arg_vals dec2f dec2d T = Ok (true, Z.of_nat (length vs)) /\
   scan_arg_vals dec2f dec2d T (Z.of_nat (length vs)) = Ok (vs, []).
 Proof. exact (fun a b vs T H => conj (count_lang a b vs T H) (scan_lang a b vs T H)). Qed.
+
+(* non-vacuity: "1" newline four blanks "true" tab "-7" *)
+Theorem C10_linebreak_nonvacuous : forall (dec2f dec2d : list Z -> Z),
+  lang dec2f dec2d [VI 1; VT; VI (-7)] ([49] ++ nl4 ++ kw_true ++ [9] ++ [45; 55]).
+Proof. exact linebreak_example. Qed.
 
 (* rtosc_convert_to_range: whenever it converts the head of a list of scalar
    values into a range block, the block expands (PrintModel.expand) to exactly
@@ -84,17 +93,18 @@ Proof. exact elements_agree. Qed.
 (* THE LIST-LEVEL ROUND TRIP FOR EVERY OPTION RECORD (compression on or off,
    any line length, precision, column): for lists of int32/int64/char values,
    true/false/nil/inf, strings and quoted symbols (goodc: the FULL int32/int64
-   range since the range_step_fits fix; strings/symbols/chars without '.' -
-   finding D28 -; MIDI, colours; with the lossless option every finite float
+   range since the range_step_fits fix; strings and quoted symbols
+   without two dots in a row (sdotsv; three in a row are the finding D28,
+   ellipsis-in-string-before-range), every character but '.'; MIDI, colours; with the lossless option every finite float
    and double, printed as "<decimal> (<hexadecimal>)", in lists that do not
    contain both +0.0 and -0.0 of one type (nozmix: finding signed-zero-run, the
    classifier's predicate); symbols printed bare (identifier-shaped, no reserved
    word) and blobs of any length with their line breaks (goodx); arrays among
-   other values and time tags are outside), the returned count
+   other values: C10_roundtrip_any_partial below; time tags are outside), the returned count
    is the text length, the checker accepts with the number of slots the scanner
    then writes, the scanner consumes the whole text, and the slots expand to
    the original values. *)
-Theorem C10_roundtrip_any_partial : forall (dec2f dec2d : list Z -> Z) o vs text w,
+Theorem C10_roundtrip_values_partial : forall (dec2f dec2d : list Z -> Z) o vs text w,
   Forall (goodv o) vs -> nozmix vs -> Z.of_nat (length vs) < 2 ^ 31 ->
   print_arg_vals o vs 0 = Some (text, w) ->
   exists slots,
@@ -106,7 +116,7 @@ Proof. exact roundtrip_any_nz. Qed.
 
 (* the same for whole messages (rtosc_print_message / count_of_msg /
    rtosc_scan_message), compression on or off *)
-Theorem C10_message_any_partial : forall (dec2f dec2d : list Z -> Z) o addr vs text w,
+Theorem C10_message_values_partial : forall (dec2f dec2d : list Z -> Z) o addr vs text w,
   good_addr addr -> Forall (goodv o) vs -> nozmix vs -> Z.of_nat (length vs) < 2 ^ 31 ->
   print_message o addr vs 0 = Some (text, w) ->
   exists slots,
@@ -115,6 +125,71 @@ Theorem C10_message_any_partial : forall (dec2f dec2d : list Z -> Z) o addr vs t
     scan_message dec2f dec2d text (Z.of_nat (length slots)) = Ok (addr, slots, []) /\
     expand slots = Some vs.
 Proof. exact message_roundtrip_any_nz. Qed.
+
+(* LISTS THAT MIX ARRAYS WITH OTHER VALUES, every option record.  The list is
+   given as a list of values (TS v) and arrays of values (TA type elements);
+   flat is its slot layout (array header, then the elements), the input of
+   rtosc_print_arg_vals.  For values as above (goodv; the condition on the
+   zeroes over all values, also those inside arrays) and arrays whose elements
+   have one type (homog; true and false count as one; "[]" included): the
+   returned count is the text length, the checker accepts with the number of
+   slots the scanner then writes, the scanner consumes the whole text, and the
+   slots expand (expand_deep: ranges and repetitions expanded - also inside
+   arrays and repetitions OF arrays "Nx[...]" -, element counts adjusted) to the
+   original list, each array carrying the type of its last element (canon: the
+   text holds no more; the blank for "[]").
+   No side condition on the position of arrays and runs is left: a run directly
+   after an array is printed "b ... c" only if the array's last value has
+   another type or equals b, and then all three functions use the unit step
+   (repo commit 94686c2 made the checker agree).  What remains of the class
+   range-after-array concerns hand-written text only (C10_mixed_reads_partial).
+   Outside: arrays of arrays, time tags (C10_timetag_...), ".." in strings (D28), NaN/inf. *)
+Theorem C10_roundtrip_any_partial : forall (dec2f dec2d : list Z -> Z) o tvs text w,
+  Forall (goodtv o) tvs -> nozmix (scalars tvs) -> Z.of_nat (length (flat tvs)) < 2 ^ 31 ->
+  print_arg_vals o (flat tvs) 0 = Some (text, w) ->
+  exists slots,
+    w = len text /\
+    count_printed_arg_vals dec2f dec2d text = Ok (true, Z.of_nat (length slots)) /\
+    scan_arg_vals dec2f dec2d text (Z.of_nat (length slots)) = Ok (slots, []) /\
+    expand_deep slots = Some (flat (canon tvs)).
+Proof. exact roundtrip_mixed_nz. Qed.
+
+(* the same for whole messages *)
+Theorem C10_message_any_partial : forall (dec2f dec2d : list Z -> Z) o addr tvs text w,
+  good_addr addr -> Forall (goodtv o) tvs -> nozmix (scalars tvs) -> Z.of_nat (length (flat tvs)) < 2 ^ 31 ->
+  print_message o addr (flat tvs) 0 = Some (text, w) ->
+  exists slots,
+    w = len text /\
+    count_printed_arg_vals_of_msg dec2f dec2d text = Ok (true, Z.of_nat (length slots)) /\
+    scan_message dec2f dec2d text (Z.of_nat (length slots)) = Ok (addr, slots, []) /\
+    expand_deep slots = Some (flat (canon tvs)).
+Proof. exact message_roundtrip_mixed_nz. Qed.
+
+(* THE HYPOTHESIS "print... = Some _" OF THE TWO THEOREMS ABOVE HOLDS FOR EVERY
+   SUCH LIST: the printer model is total there - the range conversion never
+   takes a path the model does not cover (CUnmod), every value, repetition,
+   range and array is printed, and the value printed first never needs a line
+   break in front of the buffer (print_arg_vals starts at column 0; a message
+   may break after its address).  So the theorems speak about every list of
+   good values and arrays, every option record. *)
+Theorem C10_print_any_total : forall o tvs,
+  Forall (goodtv o) tvs -> nozmix (scalars tvs) -> Z.of_nat (length (flat tvs)) < 2 ^ 31 ->
+  exists text w, print_arg_vals o (flat tvs) 0 = Some (text, w).
+Proof. exact print_mixed_total_nz. Qed.
+
+Theorem C10_print_message_any_total : forall o addr tvs,
+  Forall (goodtv o) tvs -> nozmix (scalars tvs) -> Z.of_nat (length (flat tvs)) < 2 ^ 31 ->
+  exists text w, print_message o addr (flat tvs) 0 = Some (text, w).
+Proof. exact print_message_mixed_total_nz. Qed.
+
+(* non-vacuity: [1 2 3 4 5 6 9] 9 10 11 12 13 true [] [] [] [] [] is printed
+   "[1 ... 6 9] 9 ... 13 true 5x[]" *)
+Theorem C10_roundtrip_mixed_nonvacuous : forall o,
+  Forall (goodtv o) ex_tvs /\ nozmix (scalars ex_tvs) /\
+  print_arg_vals {| lossless := true; prec := 2; linelength := 80; compress := true |} (flat ex_tvs) 0
+  = Some ([91; 49; 32; 46; 46; 46; 32; 54; 32; 57; 93; 32; 57; 32; 46; 46; 46; 32; 49; 51; 32;
+           116; 114; 117; 101; 32; 53; 120; 91; 93], 30).
+Proof. exact roundtrip_mixed_example. Qed.
 
 (* non-vacuity: a list with a constant run, an elided and an explicit run *)
 Theorem C10_roundtrip_any_nonvacuous : forall o,
@@ -167,25 +242,27 @@ Theorem C10_array_nonvacuous : forall o,
 Proof. exact roundtrip_array_example. Qed.
 
 (* ARRAYS AMONG OTHER VALUES (recogniser half): a text made of items (values,
-   "NxV", range tails - as in C10_compressed_reads_partial) and non-empty arrays
-   "[" items "]" in any order, separated by any white space, is counted and
-   scanned to the expected slots, PROVIDED NO RANGE TAIL "b ... c" DIRECTLY
-   FOLLOWS AN ARRAY (m_ok with the context None = "the element before was an
-   array" demands is_tail = false).  That exclusion is the finding class
-   range-after-array, the predicate of its classifier (a closing bracket, white
-   space, one token, white space, "..."): the checker looks for the tail's left
-   neighbour in the TEXT of the array (and finds an ellipsis inside it), the
-   scanner in the slots before. *)
+   "NxV", range tails - as in C10_compressed_reads_partial), arrays "[" items "]"
+   (also "[]") and repetitions of arrays "Nx[" items "]" in any order, separated
+   by any white space, is counted and scanned to the expected slots.  The only
+   exclusion (m_ok in the context CArr q, aft_ok): A RANGE TAIL "b ... c" DIRECTLY
+   AFTER AN ARRAY WHOSE LAST VALUE q HAS THE TAIL'S TYPE AND DIFFERS FROM b.  The
+   checker takes the array as a whole for the left neighbour (none: unit step),
+   the scanner the slot before it - the array's last value (step b - q).  That is
+   the finding class range-after-array for hand-written text (D25,
+   "[1 31 36] 4 ... -1"); the printer never writes it (it elides the tail's
+   first value only when the previous value has another type or equals b). *)
 Theorem C10_mixed_reads_partial : forall (dec2f dec2d : list Z -> Z) ms T,
-  mseq dec2f dec2d (Some None) ms T ->
+  mseq dec2f dec2d (CItem None) ms T ->
   count_printed_arg_vals dec2f dec2d T = Ok (true, Z.of_nat (length (mslots ms))) /\
   scan_arg_vals dec2f dec2d T (Z.of_nat (length (mslots ms))) = Ok (mslots ms, []).
 Proof. exact mseq_reads. Qed.
 
-(* non-vacuity: "[1 ... 6 9] true 3 ... 7" *)
+(* non-vacuity: "[1 ... 6 9] 9 ... 13 true 3x[]" (a tail directly after an array) *)
 Theorem C10_mixed_nonvacuous : forall (dec2f dec2d : list Z -> Z),
-  exists T, mseq dec2f dec2d (Some None) ex_mixed T /\
-            T = [91; 49; 32; 46; 46; 46; 32; 54; 32; 57; 93; 32; 116; 114; 117; 101; 32; 51; 32; 46; 46; 46; 32; 55].
+  exists T, mseq dec2f dec2d (CItem None) ex_mixed T /\
+            T = [91; 49; 32; 46; 46; 46; 32; 54; 32; 57; 93; 32; 57; 32; 46; 46; 46; 32; 49; 51; 32;
+                 116; 114; 117; 101; 32; 51; 120; 91; 93].
 Proof. exact mixed_example. Qed.
 
 (* the text forms the printer uses with compression on - values, repetitions
@@ -238,6 +315,49 @@ Theorem C10_float_nonvacuous :
 Proof. exact float_list_example. Qed.
 
 (* decimal integers: no open hypothesis about printf/sscanf *)
+(* TIME TAGS.  The model prints and reads them (PrintModel.print_timetag,
+   ScanModel.scan_date / skip_date; TimeFmt: the calendar of TZ=UTC and the
+   conversions of the fraction); every run compares them with the real code and
+   the calendar functions with localtime() / mktime() of libc.  Proved about the
+   model, without hypotheses:
+   - the calendar pair round-trips for every 32-bit number of seconds (dates
+     1970 .. 2106), fields in their ranges;
+   - the 32-bit fraction of a second, printed through a float (the decimal
+     digits are for the reader, the exact value is the hexadecimal float in
+     "(...+0x..s)"), comes back exactly when it has at most 24 significant bits
+     (frac_fits_float - the quantifier's "float-representable fraction"); a
+     fraction with more bits is rounded by the code (0x12345679 -> 0x12345680)
+     and one above 0xffffff7f becomes "0x1p+0", which the checker rejects:
+     outside the quantifier, see notes/C10.md;
+   - so the value of a time tag is rebuilt from what the printer writes.
+   NOT proved: that the recognisers read the printed TEXT of a time tag back for
+   every time tag (shown for the examples below by computation, and tied). *)
+Theorem C10_timetag_calendar : forall s, 0 <= s < 2 ^ 32 ->
+  let '(y, mo, d, h, mi, se) := date_of_secs s in
+  secs_of_date y mo d h mi se = s /\
+  1970 <= y <= 2200 /\ 1 <= mo <= 12 /\ 1 <= d <= 31 /\ 0 <= h < 24 /\ 0 <= mi < 60 /\ 0 <= se < 60.
+Proof. exact calendar_roundtrip. Qed.
+
+Theorem C10_timetag_fraction : forall sf, frac_fits_float sf -> float2secfracs (secfracs2float sf) = Some sf.
+Proof. exact secfracs_roundtrip. Qed.
+
+Theorem C10_timetag_value_partial : forall t, 0 <= t < 2 ^ 64 ->
+  let secs := t / 2 ^ 32 in let sf := t mod 2 ^ 32 in
+  sf = 0 \/ frac_fits_float sf ->
+  let '(y, mo, d, h, mi, se) := date_of_secs secs in
+  exists sf', (if sf =? 0 then Some 0 else float2secfracs (secfracs2float sf)) = Some sf' /\
+              secs_of_date y mo d h mi se mod 2 ^ 32 * 2 ^ 32 + sf' mod 2 ^ 32 = t.
+Proof. exact timetag_value_roundtrip. Qed.
+
+(* immediately, 2016-11-14, 2016-11-14 17:26, 2016-11-14 17:26:30,
+   2016-11-14 17:26:30.50 (...+0x1p-1s), 2106-02-07 06:28:15.00 (...+0x1.8p-23s), 12 *)
+Theorem C10_timetag_examples : forall (dec2f dec2d : list Z -> Z),
+  let o := {| lossless := true; prec := 2; linelength := 80; compress := false |} in
+  exists text w, print_arg_vals o ex_timetags 0 = Some (text, w) /\ w = len text /\
+    count_printed_arg_vals dec2f dec2d text = Ok (true, 7) /\
+    scan_arg_vals dec2f dec2d text 7 = Ok (ex_timetags, []).
+Proof. exact timetag_examples. Qed.
+
 Theorem C10_decimal_roundtrip : forall v rest,
   num_follow rest -> sc_d (print_d v ++ rest) = Some (v, rest) /\ sc_i (print_d v ++ rest) = Some (v, rest).
 Proof. exact (fun v rest H => conj (sc_d_print v rest H) (sc_i_print v rest H)). Qed.
